@@ -64,6 +64,9 @@ def run(tier):
                         subsets = [subsets[-1]] + r.sample(subsets[:-1], 1)
                     for decs in subsets:
                         B2.rec_bec2_read(rec, text, decs, plan.ecc_privs, orc, True, auth=auth)
+                    if text and subsets:
+                        # another legal text layout of the same file; MAC checking off
+                        B2.rec_bec2_read(rec, L.reformat(r, text), subsets[-1], plan.ecc_privs, orc, nfiles % 2 == 0, auth=auth)
         ncrc = 0
         for want in ("lo", "hi") + (("both",) if tier == "thorough" else ()):
             for which in ("cust", "update"):
